@@ -62,7 +62,7 @@ OUTSIDE = (
     "identity of the delivered batch object (batches are compared by content)."
 )
 ASSUMPTIONS = [
-    "json.loads in (b) is a contract stub: returns the JSON value the harness chose, or raises JSONDecodeError / RecursionError; the text is not parsed",
+    "json.loads in (b) is a contract stub: returns the JSON value the harness chose, or raises JSONDecodeError / RecursionError / plain ValueError (int digit limit); the text is not parsed",
     "json in (a') is a transparent carrier (loads(dumps(x)) == x); real json is used in (a) and in every replay",
     "keys of the peer's extra object are drawn from a fixed alphabet by a symbolic index (a symbolic str cannot be a ** keyword under CrossHair)",
     "nested JSON containers carry concrete leaves (engine's symbolic repr model cannot serve str(container))",
@@ -343,12 +343,13 @@ class _ZeroRowBatch:
 
 
 _J: dict = {"mode": 0, "value": None, "token": None}
-_J_VALUE, _J_DECODE_ERROR, _J_RECURSION = 0, 1, 2
+_J_VALUE, _J_DECODE_ERROR, _J_RECURSION, _J_VALUE_ERROR = 0, 1, 2, 3
 
 
 class _PeerJson:
     """``json`` as seen by the reader: ``loads`` yields *some* JSON value, or fails the way the
-    real decoder can (JSONDecodeError; RecursionError on deeply nested input)."""
+    real decoder can (JSONDecodeError; RecursionError on deeply nested input; a plain ValueError
+    for an integer literal over the int/str conversion limit)."""
 
     JSONDecodeError = _real_json.JSONDecodeError
 
@@ -357,6 +358,10 @@ class _PeerJson:
             raise _real_json.JSONDecodeError("not json", "", 0)
         if _J["mode"] == _J_RECURSION:
             raise RecursionError("maximum recursion depth exceeded while decoding a JSON array")
+        if _J["mode"] == _J_VALUE_ERROR:
+            # syntactically valid JSON the decoder still refuses with a plain ValueError (not a JSONDecodeError):
+            # an integer literal beyond the interpreter's int<->str conversion limit (sys.get_int_max_str_digits())
+            raise ValueError("Exceeds the limit (4300 digits) for integer string conversion: value has 5000 digits")
         return _J["value"]
 
     def __getattr__(self, name: str):  # pragma: no cover
@@ -364,7 +369,7 @@ class _PeerJson:
 
 
 _dispatch_peer = reglobalize(wire._dispatch_log_or_error, json=_PeerJson())
-_JSON_STUB = "json.loads := returns the symbolic JSON value chosen by the harness | JSONDecodeError | RecursionError (text ignored)"
+_JSON_STUB = "json.loads := returns the symbolic JSON value chosen by the harness | JSONDecodeError | RecursionError | plain ValueError (text ignored)"
 _MD_STUB = "pa.KeyValueMetadata := mapping with .get over concrete keys and symbolic bytes values; batch := object with num_rows == 0"
 
 _LEVEL_BYTES = tuple(lv.value.encode() for lv in _ALL_LEVELS)
@@ -599,16 +604,19 @@ _NB = pick(2, 3)
 
 
 def _replay_decoder(args: dict) -> str | None:
-    text = {_J_VALUE: b"{}", _J_DECODE_ERROR: b"{not json", _J_RECURSION: b"[" * 200000}[args["jm"]]
+    import sys
+
+    digits = b"9" * (max(sys.get_int_max_str_digits(), 640) + 700)  # over the limit whatever it is set to (0 = unlimited: then no failure to replay)
+    text = {_J_VALUE: b"{}", _J_DECODE_ERROR: b"{not json", _J_RECURSION: b"[" * 200000, _J_VALUE_ERROR: b'{"rows": ' + digits + b', "t": [' + digits + b"]}"}[args["jm"]]
     return _real_verdict({md.LOG_LEVEL_KEY: _LEVEL_BYTES[args["li"]], md.LOG_MESSAGE_KEY: b"msg", md.LOG_EXTRA_KEY: text})
 
 
 @cond(q=20, t=60, encoded=[wire._dispatch_log_or_error], stubs=[_JSON_STUB, _MD_STUB], replay=_replay_decoder,
-      signature=lambda a, c: "C08:peer-extra:decoder-recursion",
-      bound="all six levels x json.loads outcome in {object, JSONDecodeError, RecursionError}")
+      signature=lambda a, c: "C08:peer-extra:" + ("decoder-recursion", "decoder-recursion", "decoder-recursion", "decoder-plain-valueerror")[a["jm"]],
+      bound="all six levels x json.loads outcome in {object, JSONDecodeError, RecursionError, plain ValueError (integer literal over the int/str digit limit)}")
 def peer_extra_decoder_failure(li: int, jm: int) -> bool:
     """
-    pre: 0 <= li <= 5 and 0 <= jm <= 2
+    pre: 0 <= li <= 5 and 0 <= jm <= 3
     post: _
     """
     _J["mode"] = jm
